@@ -6,7 +6,7 @@ import time
 from pathlib import Path
 from typing import Dict, List, Optional
 
-from experimaestro import Config, LightweightTask, Meta, Param, Task, deprecate
+from experimaestro import Config, LightweightTask, Meta, Param, PathGenerator, Task, deprecate, field
 
 
 # --------------------------------------------------------------------------- C16: tiny tasks
@@ -213,3 +213,24 @@ def rep_deprecate_all():
 class DictHolder(Config):
     """used by bounded/findings.py (C12 finding: dict value with a "type" key)"""
     d: Param[Dict[str, str]]
+
+
+# ---- classes of the recorded finding "default value that is a configuration" (bounded/findings.py)
+class FdOptimizer(Config):
+    lr: Param[float] = 1e-3
+    verbose: Meta[bool] = False
+
+
+class FdLearner(Config):
+    epochs: Param[int]
+    optimizer: Param[FdOptimizer] = FdOptimizer(lr=1e-3)
+
+
+class FdTokenizer(Config):
+    lowercase: Param[bool] = True
+    cache: Meta[Path] = field(default_factory=PathGenerator("cache"))
+
+
+class FdIndexer(Config):
+    name: Param[str]
+    tokenizer: Param[FdTokenizer] = FdTokenizer(lowercase=True)
